@@ -20,7 +20,7 @@ def load_known():
     return json.load(open(p))
 
 
-def run_property(pid, tier, repo, seed, only_key=None):
+def run_property(pid, tier, repo, seed, only_key=None, fixtures=True):
     t0 = time.time()
     spec = props.PROPS[pid]
     insts = spec.get("insts_" + tier)
@@ -35,7 +35,7 @@ def run_property(pid, tier, repo, seed, only_key=None):
                 results.extend(r)
             else:
                 results.append(r)
-        fx = props.run_fixtures(pid)
+        fx = props.run_fixtures(pid) if fixtures else []
     finally:
         cleanup()
     # floors / fixtures -> analysis broken
@@ -62,6 +62,56 @@ def run_property(pid, tier, repo, seed, only_key=None):
     wall = time.time() - t0
     return {"spec": spec, "results": results, "violations": viol, "known": knownhits, "broken": broken,
             "fixtures": fx, "wall": wall, "prog": prog}
+
+
+def _rules_named(text):
+    import re
+    return set(re.findall(r"R-[A-Z0-9]+", text or ""))
+
+
+def mutation_controls(pid, repo):
+    """thorough tier: every kept seeded change that this property's rules are recorded to catch is applied to a scratch copy of
+    the current working tree and the rules are run on the copy; the control passes when the recorded rule reports a violation.
+    A patch that no longer applies to the current tree is skipped (the tree moved on), never counted as a failure."""
+    import glob, shutil, subprocess, tempfile
+    out = []
+    for meta_p in sorted(glob.glob(os.path.join(VERIF, "seeded", "*", "meta.json"))):
+        m = json.load(open(meta_p))
+        cb = m.get("caught_by", "")
+        if cb.startswith("MISSED"):
+            continue
+        # 'C05 and C12 R-VERDICT ...' / 'C12 R-BASISMAP (...)': which properties claim the catch
+        head = cb.split("R-")[0]
+        props_named = set(__import__("re").findall(r"C\d\d", head)) or {m.get("property")}
+        if pid not in props_named:
+            continue
+        want = _rules_named(cb)
+        patch = os.path.join(os.path.dirname(meta_p), "patch.diff")
+        tmp = tempfile.mkdtemp(prefix="qsa-mut-", dir="/var/tmp")
+        entry = {"seed": m["id"], "expected_rules": sorted(want)}
+        try:
+            files = subprocess.run(["git", "-C", repo, "ls-files"], capture_output=True, text=True).stdout.split()
+            for fn in files:
+                src = os.path.join(repo, fn)
+                if os.path.isfile(src) and (fn.endswith((".c", ".h", ".am", ".ac", ".in")) or "/" not in fn):
+                    os.makedirs(os.path.dirname(os.path.join(tmp, fn)) or tmp, exist_ok=True)
+                    shutil.copy(src, os.path.join(tmp, fn))
+            r = subprocess.run(["patch", "-p1", "--batch", "--silent", "-d", tmp, "-i", patch], capture_output=True, text=True)
+            if r.returncode != 0:
+                entry["result"] = "skipped: patch does not apply to the current tree"
+                out.append(entry)
+                continue
+            try:
+                o = run_property(pid, "quick", tmp, 0, fixtures=False)
+                got = {v.rule for v in o["violations"]}
+                entry["reported_rules"] = sorted(got)
+                entry["result"] = "detected" if (got & want if want else got) else "NOT DETECTED"
+            except AnalysisBroken as ex:
+                entry["result"] = "analysis broken on the mutant: %s" % ex
+        finally:
+            shutil.rmtree(tmp, ignore_errors=True)
+        out.append(entry)
+    return out
 
 
 def write_evidence(pid, tier, seed, out):
@@ -95,6 +145,7 @@ def write_evidence(pid, tier, seed, out):
             "functions_analysed": len(prog.funcs),
             "rules": [r.summary() for r in results],
             "fixtures": [{"name": n, "ok": ok, "detail": d} for n, ok, d in out["fixtures"]],
+            "mutation_controls": out.get("controls", []),
             "known_findings_reported": [{"rule": v.rule, "key": v.key} for v, k in out["known"]],
             "unlisted_violations": [v.to_json() for v in out["violations"]],
             "analysis_broken": out["broken"],
@@ -145,6 +196,14 @@ def main(argv=None):
         traceback.print_exc()
         print("ANALYSIS-BROKEN property=%s internal error" % pid)
         return 2
+    if tier == "thorough" and not a.replay:
+        try:
+            out["controls"] = mutation_controls(pid, repo)
+        except Exception as ex:     # the controls must never turn a sound verdict into a crash
+            out["controls"] = [{"seed": "*", "result": "controls could not be run: %s" % ex}]
+        for c in out["controls"]:
+            if c.get("result") == "NOT DETECTED":
+                out["broken"].append("mutation control %s: the seeded change is no longer reported by %s" % (c["seed"], "/".join(c["expected_rules"])))
     if not a.replay:
         write_evidence(pid, tier, seed, out)
     for r in out["results"]:
@@ -169,6 +228,10 @@ def main(argv=None):
             print(v.line())
             print("VIOLATION property=%s replay=%s" % (pid, path if not a.replay else a.replay))
         return 1
+    if out.get("controls"):
+        det = sum(1 for c in out["controls"] if c.get("result") == "detected")
+        print("mutation controls: %d/%d seeded changes detected on a scratch copy (%d skipped)" % (
+            det, len(out["controls"]), sum(1 for c in out["controls"] if str(c.get("result", "")).startswith("skipped"))))
     print("OK property=%s tier=%s (%.1fs)" % (pid, tier, out["wall"]))
     return 0
 
